@@ -73,6 +73,7 @@ pub enum K {
     Twin,
     EventNew,
     AddEventFrom,
+    UserPanic,
 }
 
 #[derive(Clone)]
@@ -239,6 +240,7 @@ const W_SAMPLING: &[(K, u64)] = &[
 ];
 
 const W_ATTACH: &[(K, u64)] = &[
+    (K::UserPanic, 3),
     (K::EventNew, 3),
     (K::AddEventFrom, 4),
     (K::Root, 6),
@@ -281,6 +283,7 @@ const W_STATE: &[(K, u64)] = &[
 ];
 
 const W_SCOPES: &[(K, u64)] = &[
+    (K::UserPanic, 3),
     (K::EventNew, 3),
     (K::AddEventFrom, 4),
     (K::UnwindScope, 4),
@@ -302,6 +305,12 @@ const W_SCOPES: &[(K, u64)] = &[
 ];
 
 const W_CTX: &[(K, u64)] = &[
+    (K::UserPanic, 3),
+    // program points inside property closures (contexts are extracted there too)
+    (K::LocalAddProps, 5),
+    (K::AddProps, 3),
+    (K::LocalAddEvent, 3),
+    (K::LocalWithProps, 3),
     (K::Root, 8),
     (K::Child, 10),
     (K::ChildLocal, 6),
@@ -361,6 +370,7 @@ const W_ASYNC: &[(K, u64)] = &[
 ];
 
 const W_API: &[(K, u64)] = &[
+    (K::UserPanic, 3),
     (K::EventNew, 3),
     (K::AddEventFrom, 4),
     (K::UnwindScope, 3),
@@ -1234,6 +1244,10 @@ impl<'a> Gen<'a> {
                 let f = self.rng.below(crate::corpus::NTWINS as u64) as u8;
                 let arg = (self.ops.len() as u32) * 8 + self.rng.below(8) as u32;
                 self.push(t, Op::Twin { f, arg, slot })
+            }
+            K::UserPanic => {
+                let kind = self.rng.below(4) as u8;
+                self.push(t, Op::UserPanic { kind })
             }
             K::EventNew => {
                 let ev = self.new_slot();
